@@ -33,6 +33,15 @@ def check(ctx, rep):
         check_emission(rep, http, cfg)
         check_siblings(rep, http, cfg)
         check_forwarders(rep, http, cfg)
+    # R14.f: "exactly one request effect" also rests on the command primitives underneath: a request / notification made through the command API
+    # puts its effect on the effect channel exactly once (shared with C01 R01.f)
+    from rules.props import prims as _prims
+    _core = ctx.crate('default', 'crux_core')
+    rep.rule('R14.f', 'a command-API request, stream or notification puts its effect on the effect channel exactly once (at the call / at the first poll)', floor=10)
+    if _core is None:
+        rep.missing('R14.f', 'crux_core facts')
+    else:
+        _prims.check_request_typestate(rep, 'R14.f', _core)
     rep.assume('http_types Request::{method,url,take_body,set_body,insert_header,set_query}, Body::{from_json,from_string,from_form,'
                'into_bytes} and url::Url behave as documented (third-party)')
 
